@@ -126,36 +126,6 @@ def tag_exceeds_30_bits(text):
     return any(int(n) >= 2**30 for n in re.findall(r"\[\s*(?:UNIVERSAL|APPLICATION|PRIVATE|CONTEXT)?\s*(\d+)\s*\]", strip_comments(text)))
 
 
-MIXEDCASE_TYPES = "BMPString|GeneralString|GraphicString|IA5String|ISO646String|NumericString|PrintableString|T61String|TeletexString|UniversalString|UTF8String|VideotexString|VisibleString|GeneralizedTime|UTCTime|ObjectDescriptor"
-SKELETON_STEMS = None
-
-
-def null_actual(text):
-    """NULL written as an ACTUAL parameter of a parameterized reference:  P {NULL}  /  P {INTEGER, NULL}"""
-    return bool(re.search(r"\b[A-Z][\w-]*\s*\{\s*(?:[^{}:=]*,\s*)?NULL\s*(?:,[^{}]*)?\}", strip_comments(text)))
-
-
-def governor_mixedcase(text):
-    """a dummy parameter governed by a builtin type whose keyword is not all capitals:  P {IA5String:d} ::="""
-    return bool(re.search(r"\{[^{}]*\b(?:%s)\s*:\s*[A-Za-z][\w-]*[^{}]*\}\s*::=" % MIXEDCASE_TYPES, strip_comments(text)))
-
-
-def governor_null(text):
-    return bool(re.search(r"\{[^{}]*\bNULL\s*:\s*[a-z][\w-]*[^{}]*\}\s*::=", strip_comments(text)))
-
-
-def enum_value_reference(text):
-    """an ENUMERATED item whose number is a value reference:  ENUMERATED { k(v3), l }"""
-    return bool(re.search(r"\bENUMERATED\s*\{[^{}]*\b[a-z][\w-]*\s*\(\s*[a-z][\w-]*\s*\)", strip_comments(text)))
-
-
-def skeleton_named_type(text, skel):
-    global SKELETON_STEMS
-    if SKELETON_STEMS is None:
-        SKELETON_STEMS = {f[:-2] for f in os.listdir(skel) if f.endswith(".h")}
-    return any(n in SKELETON_STEMS for n in re.findall(r"(?m)^\s*([A-Z][\w-]*)\s*(?:\{[^}]*\}\s*)?::=", strip_comments(text)))
-
-
 def param_types_in_two_modules(text):
     """names of parameterized type assignments that occur in two modules"""
     names = re.findall(r"(?m)^\s*([A-Z][\w-]*)\s*\{[^{}]*\}\s*::=", strip_comments(text))
@@ -213,14 +183,6 @@ def match_finding(stage, job):
             return "C10-of-of-size-assert"
         if job["rc"] == -11 and left_recursive_choice(text):
             return "C11-leftrec-crash"
-        if "asn1f_find_terminal_thing: Assertion `ref'" in err and null_actual(text):
-            return "C10-param-null-actual-assert"
-        if "asn1p_ref_add_component: Assertion `lex_type ==" in err and governor_mixedcase(text):
-            return "C10-param-governor-mixedcase-assert"
-        if "asn1constraint_default_alphabet: Assertion" in err and "ISO646String" in strip_comments(text):
-            return "C10-iso646string-assert"
-        if job["rc"] == -11 and enum_value_reference(text):
-            return "C10-enum-value-reference-crash"
     if stage in ("build", "cxx"):
         if re.search(r"asn_DEF_Member_\d+. undeclared", blog) and (has_of_unsigned_integer(text) or of_unsigned_through_param(text)):
             return "C10-of-unsigned-element"
@@ -234,16 +196,12 @@ def match_finding(stage, job):
         if re.search(r"\b(EXTERNAL|EMBEDDED_PDV|CHARACTER_STRING)\.h: No such file", blog) and re.search(r"\b(EXTERNAL|EMBEDDED\s+PDV|CHARACTER\s+STRING)\b", strip_comments(text)):
             return "C10-unsupported-useful-types-no-skeleton"
         if re.search(r"unknown type name .\w+_\d+P\d+_t|asn_DEF_\w+_\d+P\d+. undeclared|\w+_\d+P\d+. has not been declared|does not name a type", blog):
-            if governor_null(text):
-                return "C10-param-null-value-respecialized"
             if param_type_in_two_modules(text):
                 return "C10-param-type-in-two-modules"
         if re.search(r"#error Cannot compile", blog) and re.search(r"\bINSTANCE\s+OF\b", strip_comments(text)):
             return "C10-instance-of-member-error-directive"
         if re.search(r"\b[\w-]+\.h: No such file", blog) and valueset_used_as_type(text):
             return "C10-valueset-type-as-member"
-        if skeleton_named_type(text, job["skel"]) and re.search(r"unknown type name|undeclared|conflicting types|redefinition|does not name a type|has not been declared", blog):
-            return "C10-type-named-like-skeleton"
     if stage == "files-model":
         # model and C disagree on the per-type file names ONLY at parameterized types defined in two modules
         # (the templates are not run through asn1f_check_duplicate: no module prefix, both saved to one file)
@@ -260,8 +218,6 @@ def match_finding(stage, job):
             return "C10-unsupported-useful-types-no-skeleton"
         if kinds <= {"missing-include"} and valueset_used_as_type(text):
             return "C10-valueset-type-as-member"
-        if kinds <= {"shadows-skeleton"} and skeleton_named_type(text, job["skel"]):
-            return "C10-type-named-like-skeleton"
     if stage == "overflow":
         if bound_exceeds_long(text) or tag_exceeds_30_bits(text):
             return "C10-constant-exceeds-c-type"
@@ -447,6 +403,9 @@ def main(tier):
                 report("silent", "asn1c:no-diagnostic", "asn1c exited %d without printing a diagnostic on stderr" % rc, {"asn1c_stdout": j.get("stdout", "")[-600:]})
             else:
                 run.count("%s:refused(rc=%d)" % (okey, rc))
+                if m.get("accept"):
+                    # directed modules whose acceptance IS the repaired behaviour (a crash turned into a compilation, not into a refusal)
+                    run.violation("asn1c:repaired-construct-refused", dict(replay, what="asn1c refuses a construct that the repaired tree compiles (%s)" % m["accept"]))
             continue
         run.count("%s:accepted" % okey)
         if j.get("only_asn1c"):
